@@ -1,5 +1,226 @@
 import Driver.Common
-/-! Driver for C16 (stub: not built yet). -/
-def main (_args : List String) : IO UInt32 := do
-  IO.eprintln "C16: driver not implemented"
-  return 2
+import CoapVerif.Model.Limiter
+import CoapVerif.Spec.Limiter
+/-!
+Driver for C16.  Input: one history per line, as printed by harness/c16:
+
+  `cfg L E ; <ev> [& <ev>]* | run <ids> ret <id:res,…> tab <path:counter/waiters,…> n <entries> ; … ; idle | entries <n> probe <ok|…>`
+
+* `judge` evaluates the specification's judge (Spec/Limiter.lean) on the observed history: `ok` or `violates <clause> …`.
+* `model` checks trace inclusion: it keeps the set of model states (Model/Limiter.lean) that are compatible with all
+  observations so far; within one line the external events and the internal steps of all goroutines are interleaved in
+  every possible way (both branches of a `select` with two ready cases) until nothing is enabled.  `ok` if after every
+  line at least one quiescent model state shows exactly the observation, otherwise `diverges @i …`.
+-/
+namespace Driver.C16
+open CoapVerif CoapVerif.Model.Limiter
+
+structure ObsLine where
+  running : List Nat
+  rets : List (Nat × String)
+  tab : List (Nat × Int × Nat)
+  entries : Nat
+  deriving BEq, Repr
+
+inductive XEv | arrive (id p : Nat) (pre : Bool) | cancel (id : Nat) | finish (id : Nat)
+  deriving BEq, Repr
+
+def XEv.id : XEv → Nat
+  | .arrive id _ _ => id | .cancel id => id | .finish id => id
+
+def splitOnStr (s sep : String) : List String := (s.splitOn sep).map (fun x => x.trimAscii.toString)
+
+def parseEv (s : String) : Option XEv :=
+  match words s with
+  | ["arrive", i, p] => do some (.arrive (← i.toNat?) (← p.toNat?) false)
+  | ["arrivec", i, p] => do some (.arrive (← i.toNat?) (← p.toNat?) true)
+  | ["cancel", i] => do some (.cancel (← i.toNat?))
+  | ["finish", i] => do some (.finish (← i.toNat?))
+  | _ => none
+
+def parseIds (s : String) : Option (List Nat) :=
+  if s = "-" then some [] else (s.splitOn ",").mapM (·.toNat?)
+
+def parseRets (s : String) : Option (List (Nat × String)) :=
+  if s = "-" then some [] else
+    (s.splitOn ",").mapM fun x => match x.splitOn ":" with
+      | [i, r] => do some ((← i.toNat?), r)
+      | _ => none
+
+def parseTab (s : String) : Option (List (Nat × Int × Nat)) :=
+  if s = "-" then some [] else
+    (s.splitOn ",").mapM fun x => match x.splitOn ":" with
+      | [p, cw] => match cw.splitOn "/" with
+        | [c, w] => do some ((← p.toNat?), (← parseInt? c), (← w.toNat?))
+        | _ => none
+      | _ => none
+
+def parseObs (s : String) : Option ObsLine :=
+  match words s with
+  | ["run", r, "ret", rt, "tab", tb, "n", n] => do
+    some ⟨← parseIds r, ← parseRets rt, ← parseTab tb, ← n.toNat?⟩
+  | _ => none
+
+inductive Seg
+  | line (evs : List XEv) (obs : ObsLine)
+  | idle (entries : Nat) (probe : String)
+  | panic (msg : String)
+
+def parseSeg (s : String) : Option Seg :=
+  match splitOnStr s "|" with
+  | [l, r] =>
+    match words l with
+    | ["idle"] => match words r with
+      | ["entries", n, "probe", p] => do some (.idle (← n.toNat?) p)
+      | _ => none
+    | ["panic"] => some (.panic r)
+    | _ => do
+      let evs ← (splitOnStr l "&").mapM parseEv
+      let o ← parseObs r
+      some (.line evs o)
+  | _ => none
+
+def parseHistory (line : String) : Option (Int × Int × List Seg) :=
+  match splitOnStr line ";" with
+  | c :: rest =>
+    match words c with
+    | ["cfg", l, e] => do
+      let segs ← rest.mapM parseSeg
+      some ((← parseInt? l), (← parseInt? e), segs)
+    | _ => none
+  | _ => none
+
+/-! ### judge -/
+
+def toSpecEv : XEv → Spec.Limiter.Ev
+  | .arrive i p pre => .arrive i p pre
+  | .cancel i => .cancel i
+  | .finish i => .finish i
+
+def judgeHistory (line : String) : String :=
+  match parseHistory line with
+  | none => "bad-op"
+  | some (l, e, segs) => Id.run do
+    let mut st : Spec.Limiter.JState := { cfg := ⟨l.toNat, e.toNat⟩ }
+    let mut i := 0
+    for sg in segs do
+      i := i + 1
+      match sg with
+      | .line evs o =>
+        if o.rets.any (fun r => r.2 != "ok" && r.2 != "ctx") then
+          return s!"violates return: a call ended with `{o.rets}` @{i}"
+        match Spec.Limiter.judgeLine st (evs.map toSpecEv) ⟨o.running, o.rets.map (fun r => (r.1, r.2 == "ok"))⟩ with
+        | .ok st' => st := st'
+        | .error c => return s!"violates {c} @{i}"
+      | .idle n p =>
+        if p == "pending" then continue
+        match Spec.Limiter.judgeIdle st n (p == "ok") with
+        | .ok _ => pure ()
+        | .error c => return s!"violates {c} ({p}) @{i}"
+      | .panic m => return s!"violates no-crash: {m} @{i}"
+    return "ok"
+
+/-! ### model: trace inclusion -/
+
+structure Cand where
+  s : State
+  reported : List Nat     -- ids whose return was already observed
+
+def keysOf (s : State) : List Nat := (s.ids.map s.key).eraseDups.mergeSort
+
+def snapshot (c : Cand) (pend : List XEv) : String :=
+  let s := c.s
+  toString (repr (s.ids.map (fun i => (i, s.pc i, s.key i, s.cancelled i)),
+    (keysOf s).map (fun k => (k, s.eps k)), s.semCur, s.semWaiters, c.reported, pend))
+
+def observe (c : Cand) : ObsLine × Cand :=
+  let s := c.s
+  let running := (s.ids.filter (fun i => s.pc i == .running)).mergeSort
+  let rets := (s.ids.filter (fun i => isDone (s.pc i) && !c.reported.contains i)).mergeSort
+  let retsS := rets.map (fun i => (i, match s.pc i with | .done .ok => "ok" | _ => "ctx"))
+  let tab := (keysOf s).filterMap (fun k => (s.eps k).map (fun ep => (k, ep.counter, ep.queue.length)))
+  (⟨running, retsS, tab, tab.length⟩, { c with reported := rets ++ c.reported })
+
+def internalSteps (s : State) : List Event :=
+  s.ids.flatMap (fun i => (enabledBranches s i).map (fun b => Event.step i b))
+
+def applyX (s : State) : XEv → State
+  | .arrive i p pre => step (if pre then step s (.cancel i) else s) (.arrive i p)
+  | .cancel i => step s (.cancel i)
+  | .finish i => step s (.finish i)
+
+/-- pending external events that may be applied next: the first pending event of each request id -/
+def nextPending (pend : List XEv) : List (XEv × List XEv) :=
+  let rec go (before : List XEv) : List XEv → List (XEv × List XEv)
+    | [] => []
+    | e :: rest =>
+      let r := go (before ++ [e]) rest
+      if before.any (fun b => b.id == e.id) then r else (e, before ++ rest) :: r
+  go [] pend
+
+/-- all quiescent states reachable from `c` with external events `pend` still to be issued (fuel bounds the search) -/
+partial def settle (c : Cand) (pend : List XEv) (seen : List String) (acc : List Cand) : List String × List Cand :=
+  let key := snapshot c pend
+  if seen.contains key then (seen, acc) else
+  let seen := key :: seen
+  let ints := internalSteps c.s
+  let exts := nextPending pend
+  if ints.isEmpty && exts.isEmpty then (seen, c :: acc) else
+  let (seen, acc) := ints.foldl (fun (sa : List String × List Cand) ev => settle { c with s := step c.s ev } pend sa.1 sa.2) (seen, acc)
+  exts.foldl (fun (sa : List String × List Cand) (e : XEv × List XEv) => settle { c with s := applyX c.s e.1 } e.2 sa.1 sa.2) (seen, acc)
+
+def fmtObs (o : ObsLine) : String :=
+  let ids (l : List Nat) := if l.isEmpty then "-" else ",".intercalate (l.map toString)
+  let rets := if o.rets.isEmpty then "-" else ",".intercalate (o.rets.map (fun r => s!"{r.1}:{r.2}"))
+  let tab := if o.tab.isEmpty then "-" else ",".intercalate (o.tab.map (fun t => s!"{t.1}:{t.2.1}/{t.2.2}"))
+  s!"run {ids o.running} ret {rets} tab {tab} n {o.entries}"
+
+def modelHistory (line : String) : String :=
+  match parseHistory line with
+  | none => "bad-op"
+  | some (l, e, segs) => Id.run do
+    let mut cands : List Cand := [⟨init l e, []⟩]
+    let mut i := 0
+    let mut maxc := 1
+    for sg in segs do
+      i := i + 1
+      match sg with
+      | .line evs o =>
+        let mut next : List Cand := []
+        let mut seenObs : List ObsLine := []
+        let mut seenKeys : List String := []
+        for c in cands do
+          let (_, qs) := settle c evs [] []
+          for q in qs do
+            let (ob, q') := observe q
+            if !(seenObs.contains ob) then seenObs := ob :: seenObs
+            if ob == o then
+              let k := snapshot q' []
+              if !(seenKeys.contains k) then
+                seenKeys := k :: seenKeys
+                next := q' :: next
+        if next.isEmpty then
+          return s!"diverges @{i} observed `{fmtObs o}` model-allows `{" / ".intercalate (seenObs.map fmtObs)}`"
+        cands := next
+        if next.length > maxc then maxc := next.length
+      | .idle n p =>
+        if p == "pending" then continue
+        -- every candidate must be idle when all calls have returned; the model then admits fresh requests at once
+        let idleOk := cands.any (fun c =>
+          c.s.ids.all (fun id => isDone (c.s.pc id)) && (keysOf c.s).all (fun k => (c.s.eps k).isNone) && c.s.semCur == 0 && c.s.semWaiters.isEmpty)
+        if !(idleOk && n == 0 && p == "ok") then
+          return s!"diverges @{i} observed `entries {n} probe {p}` model-allows `entries 0 probe ok` (model idle: {idleOk})"
+      | .panic m => return s!"diverges @{i} implementation panicked: {m}"
+    return s!"ok {maxc}"
+
+end Driver.C16
+
+def main (args : List String) : IO UInt32 := do
+  let stdin ← IO.getStdin
+  let stdout ← IO.getStdout
+  match args with
+  | ["model"] => Driver.forLines stdin fun l => stdout.putStrLn (if l.startsWith "#" then "skip" else Driver.C16.modelHistory l)
+  | ["judge"] => Driver.forLines stdin fun l => stdout.putStrLn (if l.startsWith "#" then "skip" else Driver.C16.judgeHistory l)
+  | _ => IO.eprintln "usage: drv_c16 model|judge"; return 2
+  stdout.flush
+  return 0
